@@ -7,6 +7,7 @@ import (
 	"encoding/json"
 	"fmt"
 	"strings"
+	"time"
 
 	"go.amzn.com/verifh/hx"
 	"go.amzn.com/verifh/stack"
@@ -16,12 +17,20 @@ import (
 
 type scen struct {
 	ending string // how invocation 1 ends: success | fnerror | timeout | crash | extexit
-	kind   string // rogue submission: stale-response | stale-error | older-response | unknown-response | duplicate-response | duplicate-error
+	kind   string // rogue submission: slow-response (accepted for invocation 1, body still uploading when 1 is reset) | stale-response | stale-error | older-response | unknown-response | duplicate-response | duplicate-error
 	ext    bool
 	bound  int
+	tailMs int // slow-response: the tail of the body arrives this long after the upload began
 }
 
 func (s scen) name() string {
+	if s.kind == "slow-response" {
+		return fmt.Sprintf("first-ends=%s rogue=%s(tail after %d ms) ext=%v B=%d", s.ending, s.kind, s.tailMs, s.ext, s.bound)
+	}
+	return s.name0()
+}
+
+func (s scen) name0() string {
 	return fmt.Sprintf("first-ends=%s rogue=%s ext=%v B=%d", s.ending, s.kind, s.ext, s.bound)
 }
 
@@ -61,6 +70,9 @@ func (s scen) config(rp **rec) *stack.Config {
 				case "extexit":
 					rt.Sleep(300 * 1e6) // give the extension's exit time to land first
 				}
+			}
+			if s.kind == "slow-response" && k == 3 {
+				rt.Sleep(500 * 1e6) // invocation 2 is in flight for a while
 			}
 			c := rt.Response(n.ReqID, n.Body)
 			r.curDone = true
@@ -105,6 +117,10 @@ func (s scen) run(c *hx.Ctx) *hx.ScenarioResult {
 		// invocation 0 (healthy, gives an "older" id), invocation 1 (ends as the scenario says)
 		sched.Region(false)
 		w.Invoke(echo(0), nil)
+		if s.kind == "slow-response" {
+			s.slow(w, r)
+			return
+		}
 		w.Invoke(echo(1), nil)
 		sched.Region(true)
 		// the rogue client: any local process that kept an id; free to run at any point of invocation 2
@@ -155,6 +171,26 @@ func (s scen) run(c *hx.Ctx) *hx.ScenarioResult {
 	return hx.ExploreScenario(c, "C02", s.name(), sched.Options{Bound: s.bound, MaxSteps: 100000, BoundAll: true, NoEarlyClock: true}, body, s.judge)
 }
 
+// slow: a second thread of the function (a process the platform does not kill) starts submitting the response
+// of invocation 1 while 1 is in flight; the tail of the body arrives only after 1 has timed out. Wherever the
+// platform decides to deliver or drop that body, it must not reach invocation 2 or 3.
+func (s scen) slow(w *stack.World, r *rec) {
+	rogue := &stack.Actor{W: w, P: w.K.Detached("/rogue"), Name: "rogue", Gen: 1}
+	sched.Region(true)
+	rt := sched.Go("rogue", func() {
+		defer stack.QuietExit()
+		sched.Block("await-invocation-1", nil, func() bool { return len(r.ids) >= 2 })
+		r.rogue = append(r.rogue, rogue.ResponseSlow(r.ids[1], []byte(`"ROG`), []byte(`UE"`), time.Duration(s.tailMs)*time.Millisecond))
+	})
+	w.Invoke(echo(1), nil)
+	w.Invoke(echo(2), nil)
+	sched.Join(rt)
+	sched.Region(false)
+	vtime.Sleep(100 * 1e6)
+	w.Invoke(echo(3), nil)
+	sched.Finish()
+}
+
 func (s scen) judge(e *sched.Exec) (string, string, *sched.Failure) {
 	w := stack.WorldOf(e)
 	if e.Crash != nil {
@@ -180,6 +216,8 @@ func (s scen) judge(e *sched.Exec) (string, string, *sched.Failure) {
 		outs = append(outs, fmt.Sprintf("rogue:%d:%s", c.Status, m.ErrorType))
 		if c.Aborted {
 			failf("1", "rogue-aborted:"+s.kind, "the %s submission made the handler panic: %s", s.kind, c.Panic)
+		} else if c.Status == 202 && s.kind == "slow-response" {
+			// it was for the invocation in flight when it was made: acceptance is not a violation by itself
 		} else if c.Status == 202 {
 			failf("1", "rogue-accepted:"+s.kind, "the %s submission (id %s) was accepted with 202", s.kind, c.ReqID)
 		} else if c.Status != 400 && c.Status != 403 {
@@ -224,6 +262,16 @@ func init() {
 				if tier == "thorough" && end != "extexit" {
 					ss = append(ss, scen{ending: end, kind: k, ext: true, bound: 1})
 				}
+			}
+		}
+		tails := []int{3250}
+		if tier == "thorough" {
+			tails = []int{2900, 3100, 3250, 3400, 3550, 3700}
+		}
+		for _, t := range tails {
+			ss = append(ss, scen{ending: "timeout", kind: "slow-response", bound: b, tailMs: t})
+			if tier == "thorough" {
+				ss = append(ss, scen{ending: "timeout", kind: "slow-response", ext: true, bound: 1, tailMs: t})
 			}
 		}
 		var out []hx.Scenario
